@@ -109,6 +109,9 @@ def applyOp (cfg : Cfg) (s : State) (f : List String) : Option (State × List St
     some (step crc64 cfg s (.cancel c), [])
   | ["close"] => some (step crc64 cfg s .close, [])
   | ["settle"] => some (s, [])
+  -- a slow socket for the connection's empty ACKs: nothing the token table or the history sees
+  | ["gate"] => some (s, [])
+  | ["open"] => some (s, [])
   | _ => none
 
 /-- does the step of caller `c` leaving (return, cancel, close) erase a table entry that belongs to another caller? -/
